@@ -3,7 +3,7 @@ From stdpp Require Import gmap strings.
 From Coq Require Import QArith.
 From EV Require Import Base.Str Model.Value Model.Adapt Model.Keyspace Model.Reply Model.Prog.
 From EV Require Import Model.CmdGeneric Model.CmdString Model.Dispatch.
-From EV Require Import Spec.SpecKV Proofs.KeyspaceLemmas Proofs.ProgLemmas Proofs.KVProofs Proofs.KVCorollaries.
+From EV Require Import Spec.SpecKV Proofs.KeyspaceLemmas Proofs.ProgLemmas Proofs.KVProofs Proofs.KVCorollaries Proofs.KVTimeline.
 Local Open Scope Z_scope.
 
 (** For every finite sequence of argument vectors (any command word, any arity, any bytes, any option
@@ -19,6 +19,17 @@ Theorem C01_refines : forall cmds s d,
   rs = rs' /\ kview s' d = m' /\ kv_keep s s'.
 Proof. exact kv_script_refines. Qed.
 Print Assumptions C01_refines.
+
+(** The same over time-lines: the clock moves (by any non-negative amounts, at any positions) between the commands.
+    The reference forgets the keys whose deadline has passed when the clock moves ([purge_kv]); the handlers, which
+    never sweep but ignore and lazily delete what has expired, give the reference's replies and live dataset. *)
+Theorem C01_refines_timeline : forall evs s d,
+  st_maxmem s = 0 -> nonneg_advances evs ->
+  let '(s', rs) := run_kv_timeline d evs s in
+  let '(m', rs') := spec_kv_timeline (st_now s) (kview s d) evs in
+  rs = rs' /\ kview s' d = m' /\ st_maxmem s' = 0.
+Proof. exact kv_timeline_refines. Qed.
+Print Assumptions C01_refines_timeline.
 
 (** One command (the simulation step). *)
 Theorem C01_step : forall argv s d,
@@ -89,3 +100,12 @@ Example C01_example :
      RArr [RBulk ("a" +:+ String "013" (String "010" "b")); RNil; RNil; RBulk "v"]; RErr; ROk; RNil]%string /\
   (kview (fst (run_kv_cmds 0 (firstn 10 cmds) s0)) 0 !! "u"%string) = Some (Entry (VStr "v") (Some 9000)).
 Proof. vm_compute. done. Qed.
+
+(** Non-vacuity of the time-line statement: a value under a deadline is served until the clock passes it, a value
+    written afterwards does not inherit it, a counter restarts from nothing. *)
+Example C01_timeline_example :
+  let evs := [TCmd ["SET"; "k"; "5"; "PX"; "100"]; TAdvance 100; TCmd ["INCR"; "k"]; TAdvance 1; TCmd ["GET"; "k"];
+              TCmd ["INCR"; "k"]; TCmd ["TYPE"; "k"]; TAdvance 1000; TCmd ["GET"; "k"]]%string in
+  nonneg_advances evs /\
+  snd (run_kv_timeline 0 evs (init_state 5)) = [ROk; RInt 6; RNil; RInt 1; RSimple "integer"; RBulk "1"]%string.
+Proof. split; [repeat constructor; lia|]. vm_compute. done. Qed.
